@@ -383,7 +383,12 @@ def part_b(ck, tier, rng):
         rounds = 2 if o["topology"] == "via" else 1
         bound = rounds * (o["timeout"] + K) + SLACK
         if o["returned_after"] > bound:
-            ck.fail("terminate-returns-late:%s" % o["members"][0][0], {**ex, "bound": bound})
+            if o["topology"] == "via" and o["alive_remote_after"]:
+                # the same history as the surviving via worker: the forwarder's receiver thread sits in sub_io.wait(), neither the
+                # kill request nor the master's own exit request is read, every pass runs into its 2 x time-out limit
+                ck.fail("via-sub-child-alive-after-terminate:%s:and-terminate-late" % o["members"][0][0], {**ex, "bound": bound})
+            else:
+                ck.fail("terminate-returns-late:%s" % o["members"][0][0], {**ex, "bound": bound})
         if o["group_len"] != 0:
             ck.fail("group-not-empty-after-terminate", ex)
         if o["alive_after"]:
